@@ -15,7 +15,7 @@ import os
 import sys
 from pathlib import Path
 
-from harness.py2coq import B, OBJ, PREAMBLE, Q, S, TUP, Z, Translator, Untranslatable, find_def
+from harness.py2coq import B, OBJ, OPT, PREAMBLE, Q, S, TUP, Z, Translator, Untranslatable, find_def
 
 VERIF = Path(__file__).resolve().parent.parent
 COQ = Path(os.environ.get('VERIF_COQ_DIR') or VERIF / 'coq')
@@ -25,6 +25,15 @@ CLASSES = {
     'BoundingBox': {'fields': [('ixmin', Z), ('ixmax', Z), ('iymin', Z), ('iymax', Z)]},
     'EllipseGeometry': {'fields': [('sma', Q), ('linear_growth', B)]},
     'Background2D': {'fields': [('exclude_percentile', Q), ('_box_npixels', Z)]},
+    # argument sorts that are not photutils classes
+    'ndarray2': {'fields': [('shape', TUP(Z, Z))], 'pytypes': ['np.ndarray']},          # a 2-D numpy array: only .shape is read
+    'SegmentationImage': {'fields': [('shape', TUP(Z, Z)), ('nlabels', Z)]},
+    # a row of the PSF-photometry results table; the keys are the column-name variables of _define_flags
+    'flags_row': {'rec': True, 'fields': [('npixfit', Z), ('xcolname', Q), ('ycolname', Q), ('fluxcolname', Q)]},
+    'CircularAperture': {'fields': [('r', Q)]},
+    'CircularAnnulus': {'fields': [('r_out', Q)]},
+    'ApertureStats': {'fields': [('bbox_xmin', Z), ('bbox_ymin', Z)]},
+    'StarFinderKernel': {'fields': [('yradius', Z), ('xradius', Z)], 'pytypes': ['_StarFinderKernel']},
 }
 
 # kind 'def': a whole function / method; `sorts` = the sorts of its parameters after self / cls, in order.  kind 'var': the value of a local after its assignments
@@ -86,12 +95,103 @@ TARGETS = [
          qual='Background2D._compute_box_statistics', name='gen_box_mask', sorts={'ngood': Z}, elementwise=True),
 ]
 
+TARGETS += [
+    # ---- Gen_detection.v (C14) ----
+    dict(gen='Gen_detection', kind='block', file='photutils/detection/core.py', qual='StarFinderBase._find_stars',
+         name='gen_find_stars_border', vars=['border_width'], ret=['border_width'],
+         sorts={'exclude_border': B, 'kernel': OBJ('ndarray2')}),
+    dict(gen='Gen_detection', kind='block', file='photutils/detection/core.py', qual='StarFinderBase._find_stars',
+         name='gen_find_stars_border_kernel', vars=['border_width'], ret=['border_width'],
+         sorts={'exclude_border': B, 'kernel': OBJ('StarFinderKernel')}),
+    dict(gen='Gen_detection', kind='var', var='size', file='photutils/detection/core.py', qual='StarFinderBase._find_stars',
+         name='gen_find_stars_size', sorts={'min_separation': Q}),
+    dict(gen='Gen_detection', kind='block', file='photutils/detection/core.py', qual='StarFinderBase._find_stars',
+         name='gen_find_stars_fp_elem', vars=['footprint'], ret=['footprint'], occurrences=[2],
+         sorts={'xx': Z, 'yy': Z, 'min_separation': Q}, elementwise=True),
+    dict(gen='Gen_detection', kind='write', file='photutils/detection/peakfinder.py', qual='find_peaks',
+         name='gen_find_peaks_border_hit', write=('peak_goodmask', 2), sorts={'ny': Z, 'nx': Z}),
+]
+
+SEGCORE = 'photutils/segmentation/core.py'
+TARGETS += [
+    # ---- Gen_segm.v (C05) ----
+    dict(gen='Gen_segm', kind='write', file=SEGCORE, qual='SegmentationImage.remove_border_labels',
+         name='gen_border_axis_hit', write=('border_mask', 1), sorts={'border_width': Z}),
+    dict(gen='Gen_segm', kind='test', file=SEGCORE, qual='SegmentationImage.remove_border_labels',
+         name='gen_border_width_guard', reads='border_width', sorts={'border_width': Z}),
+    dict(gen='Gen_segm', kind='test', file=SEGCORE, qual='SegmentationImage.reassign_labels',
+         name='gen_reassign_new_label_guard', reads='new_label', sorts={'new_label': Z}),
+    dict(gen='Gen_segm', kind='test', file=SEGCORE, qual='SegmentationImage.relabel_consecutive',
+         name='gen_relabel_start_guard', reads='start_label', occurrence=0, sorts={'start_label': Z}),
+    dict(gen='Gen_segm', kind='test', file=SEGCORE, qual='SegmentationImage.relabel_consecutive',
+         name='gen_relabel_overflow_guard', reads='start_label', occurrence=1, sorts={'start_label': Z},
+         abstract={'np.iinfo(self.data.dtype).max': ('dtype_max', Z)}),
+    dict(gen='Gen_segm', kind='test', file=SEGCORE, qual='SegmentationImage.relabel_consecutive',
+         name='gen_relabel_already_consecutive', reads='start_label', occurrence=2, sorts={'start_label': Z},
+         abstract={'self.labels[0]': ('labels_first', Z), 'self.labels[-1]': ('labels_last', Z)}),
+]
+
+PSFPHOT = 'photutils/psf/photometry.py'
+TARGETS += [
+    # ---- Gen_psfphot.v (C12) ----
+    dict(gen='Gen_psfphot', kind='block', file=PSFPHOT, qual='PSFPhotometry._define_flags', name='gen_flags_1_2_4',
+         vars=['flags[index]'], ret=['flags[index]'], occurrences=[0, 1, 2], cells={'flags[index]': Z},
+         sorts={'flags[index]': Z, 'row': OBJ('flags_row'), 'shape': TUP(Z, Z)}, fields=[('fit_shape', TUP(Z, Z))]),
+    dict(gen='Gen_psfphot', file=PSFPHOT, qual='PSFPhotometry._get_invalid_positions', name='gen_invalid_position',
+         sorts={'init_params': None, 'shape': TUP(Z, Z)}, elementwise=True, self_fields=[('fit_shape', TUP(Z, Z))],
+         abstract={"init_params[self._param_maps['init_cols']['x']]": ('x', Q),
+                   "init_params[self._param_maps['init_cols']['y']]": ('y', Q)},
+         vec=['self.fit_shape', 'shape']),
+]
+
+TARGETS += [
+    # ---- Gen_detect.v (C04) ----
+    dict(gen='Gen_detect', kind='block', file='photutils/segmentation/utils.py', qual='_make_binary_structure',
+         name='gen_binary_structure_2d', vars=['footprint'], ret=['footprint'], occurrences=[1, 2],
+         sorts={'connectivity': Z}),
+    dict(gen='Gen_detect', kind='block', file='photutils/segmentation/detect.py', qual='_detect_sources',
+         name='gen_segment_pixel', vars=['segment_img'], ret=['segment_img'], occurrences=[0, 1],
+         sorts={'data': Z, 'threshold': Z, 'inverse_mask': OPT(B)}, elementwise=True),
+    dict(gen='Gen_detect', kind='test', file='photutils/segmentation/detect.py', qual='_detect_sources',
+         name='gen_segment_too_small', reads='segment_mask', sorts={'npixels': Z},
+         abstract={'np.count_nonzero(segment_mask)': ('count', Z)}),
+    dict(gen='Gen_detect', kind='test', file='photutils/segmentation/detect.py', qual='detect_sources',
+         name='gen_npixels_invalid', reads='npixels', sorts={'npixels': Q}),
+]
+
+TARGETS += [
+    # ---- Gen_apshape.v (C01): centred edges of one aperture position, extents of the three shape families ----
+    dict(gen='Gen_apshape', kind='block', file='photutils/aperture/core.py', qual='PixelAperture._centered_edges',
+         name='gen_centered_edges', vars=['xmin', 'xmax', 'ymin', 'ymax'], ret=['xmin', 'xmax', 'ymin', 'ymax'],
+         sorts={'position': TUP(Q, Q), 'bbox': OBJ('BoundingBox')}),
+    dict(gen='Gen_apshape', file='photutils/aperture/circle.py', qual='CircularAperture._xy_extents',
+         name='gen_circle_extents', sorts=[]),
+    dict(gen='Gen_apshape', file='photutils/aperture/circle.py', qual='CircularAnnulus._xy_extents',
+         name='gen_circular_annulus_extents', sorts=[]),
+    dict(gen='Gen_apshape', file='photutils/aperture/ellipse.py', qual='EllipticalMaskMixin._calc_extents',
+         name='gen_ellipse_extents', sorts={'semimajor_axis': Q, 'semiminor_axis': Q, 'theta': None},
+         abstract={'theta.to(u.radian).value': ('theta_rad', Q)}, elementwise=True,
+         funcs={'np.cos': ('cos_', 1), 'np.sin': ('sin_', 1), 'np.sqrt': ('sqrt_', 1)}),
+    dict(gen='Gen_apshape', file='photutils/aperture/rectangle.py', qual='RectangularMaskMixin._calc_extents',
+         name='gen_rectangle_extents', sorts={'width': Q, 'height': Q, 'theta': None},
+         abstract={'theta.to(u.radian).value': ('theta_rad', Q)},
+         funcs={'math.cos': ('cos_', 1), 'math.sin': ('sin_', 1)}),
+    # ---- Gen_apstats.v (C16) ----
+    dict(gen='Gen_apstats', kind='var', var='origin', file='photutils/aperture/stats.py', qual='ApertureStats.centroid',
+         name='gen_centroid_origin', sorts={}, elementwise=True),
+]
+
 # which generated files (in build order) + GenEq file each property's harness adds to its FILES
 PROPERTY_FILES = {
-    'C01': (['Gen_bbox', 'Gen_apcore'], ['C01_GenEq.v']),
+    'C01': (['Gen_bbox', 'Gen_apcore', 'Gen_apshape'], ['C01_GenEq.v', 'C01_GenEq2.v']),
     'C02': (['Gen_bbox'], ['C02_GenEq.v']),
+    'C04': (['Gen_detect'], ['C04_GenEq.v']),
+    'C05': (['Gen_segm'], ['C05_GenEq.v']),
     'C11': (['Gen_bkg'], ['C11_GenEq.v']),
+    'C12': (['Gen_psfphot'], ['C12_GenEq.v']),
     'C13': (['Gen_psf'], ['C13_GenEq.v']),
+    'C14': (['Gen_detection'], ['C14_GenEq.v']),
+    'C16': (['Gen_bbox', 'Gen_apstats'], ['C16_GenEq.v']),
     'C17': (['Gen_round'], ['C17_GenEq.v']),
     'C20': (['Gen_isophote'], ['C20_GenEq.v']),
 }
@@ -113,9 +213,20 @@ def translate_target(t, registry, cache):
             raise Untranslatable(t['file'], getattr(e, 'lineno', 0) or 0, type(e).__name__, str(e))
     lines, tree = cache[t['file']]
     fdef, cls = find_def(tree, t['qual'], t['file'])
-    tr = Translator(t['file'], CLASSES, registry, elementwise=t.get('elementwise', False))
+    classes = CLASSES
+    if t.get('self_fields') is not None and cls is not None:       # a `def` target whose class is not in CLASSES
+        classes = dict(CLASSES)
+        classes[cls] = {'fields': list(t['self_fields'])}
+    tr = Translator(t['file'], classes, registry, elementwise=t.get('elementwise', False), funcs=t.get('funcs'))
     if t.get('kind') == 'var':
         return tr.var_chain(fdef, t['var'], lines, t['name'], cls, t['sorts'], t.get('fields')), cls
+    if t.get('kind') in ('block', 'write'):
+        return tr.stmt_block(fdef, lines, t['name'], cls, t['sorts'], fields=t.get('fields'), vars=t.get('vars', ()),
+                             ret=t.get('ret'), occurrences=t.get('occurrences'), cells=t.get('cells'),
+                             abstract=t.get('abstract'), vec=t.get('vec', ()), write=t.get('write')), cls
+    if t.get('kind') == 'test':
+        return tr.if_test(fdef, lines, t['name'], cls, t['sorts'], fields=t.get('fields'), reads=t['reads'],
+                          occurrence=t.get('occurrence'), abstract=t.get('abstract'), vec=t.get('vec', ())), cls
     if t.get('no_self'):
         # a method that never reads self: translate it as a plain function of its other arguments
         for n in ast.walk(fdef):
@@ -126,10 +237,10 @@ def translate_target(t, registry, cache):
             kw_defaults=fdef.args.kw_defaults, kwarg=fdef.args.kwarg, defaults=[]),
             body=fdef.body, decorator_list=fdef.decorator_list, lineno=fdef.lineno, end_lineno=fdef.end_lineno,
             col_offset=fdef.col_offset)
-        fn = tr.function(fdef2, lines, t['name'], None, t['sorts'])
+        fn = tr.function(fdef2, lines, t['name'], None, t['sorts'], abstract=t.get('abstract'), vec=t.get('vec', ()))
         fn.kind = 'function'
         return fn, None
-    return tr.function(fdef, lines, t['name'], cls, t['sorts']), cls
+    return tr.function(fdef, lines, t['name'], cls, t['sorts'], abstract=t.get('abstract'), vec=t.get('vec', ())), cls
 
 
 def generate_all():
@@ -151,7 +262,7 @@ def generate_all():
             texts[rel].append(f"(* {t['name']}: NOT TRANSLATED -- {type(e).__name__} *)\n")
             LAST_REPORT.append((t['gen'], t['name'], f'UNTRANSLATABLE: {type(e).__name__}', t['file'], None, None))
             continue
-        if t.get('kind') != 'var':
+        if t.get('kind', 'def') == 'def':
             registry[(cls, t['qual'].split('.')[-1])] = fn
         texts[rel].append(fn.text)
         LAST_REPORT.append((t['gen'], t['name'], 'ok', t['file'], fn.span, fn.sha))
